@@ -40,6 +40,7 @@ class Executor(Base, ExprMixin, StmtMixin, CallMixin, StrMixin, SpecMixin):
         self.outcome = None
         self.heap = {}
         self.modstack = []
+        self.objstate = {}
 
     def sym_comprehension(self, *a):
         return self.unit.sym_comprehension(self, *a)
@@ -128,6 +129,8 @@ class Unit:
         if name in EXC_PARENTS or (hasattr(_bi, name) and isinstance(getattr(_bi, name), type)
                                    and issubclass(getattr(_bi, name), BaseException)):
             return VFunc(name, "exc")
+        if name in ("str", "int", "bool", "list", "dict", "float", "set", "tuple", "object"):
+            return getattr(_bi, name)
         if name in ("cast",):
             return VFunc("cast", "builtin", lambda ex, a, k: a[1])
         raise GenError("unresolved name %s in %s" % (name, self.contract.target))
@@ -149,7 +152,9 @@ class Unit:
             return dict(v)
         if callable(v) or isinstance(v, type):
             spec = self.contract.calls.get(name)
-            return VFunc(name, "callee", spec)
+            f = VFunc(name, "callee", spec)
+            f.qual = "%s.%s" % (getattr(v, "__module__", "?"), getattr(v, "__qualname__", name))
+            return f
         raise GenError("module-level value %s = %r is outside the model" % (name, type(v)))
 
     def import_module(self, ex, name):
@@ -165,6 +170,8 @@ class Unit:
     def module_attr(self, ex, mod: VModule, attr):
         dotted = mod.name + "." + attr
         if dotted in self.contract.calls:
+            if self.contract.calls[dotted].kind == "value":
+                return self.contract.calls[dotted].handler(ex)
             return VFunc(dotted, "callee", self.contract.calls[dotted])
         try:
             m = __import__(mod.name, fromlist=["x"])
@@ -401,10 +408,13 @@ class Unit:
                 zs.append(z3.IntVal(-1))
                 continue
             if isinstance(a, VFunc):
-                zs.append(z3.Const("fn!%s" % a.name, Ref))
+                zs.append(z3.Const("fn!%s" % getattr(a, "qual", a.name), Ref))
                 continue
             if isinstance(a, VUnique):
                 zs.append(z3.Const("uniq!%s" % a.tag, Ref))
+                continue
+            if isinstance(a, VOpt) and (isinstance(a.val, Sym) or is_const(a.val)) and not ex.feasible(a.is_none):
+                zs.append(ex.z(a.val))
                 continue
             if isinstance(a, VOpt):
                 if isinstance(a.val, Sym) or is_const(a.val):
@@ -419,6 +429,15 @@ class Unit:
                 pure = False
                 break
         tag = name.replace(".", "_")
+        if rk.startswith("tuple["):
+            parts = [x.strip() for x in rk[6:-1].split(",")]
+            if not pure:
+                return tuple(ex.fresh(p, tag) for p in parts)
+            out = []
+            for i, p in enumerate(parts):
+                f = ex.th.uf("call_%s.%d" % (tag, i), *([z.sort() for z in zs] + [ex.sort_of(p)]))
+                out.append(ex.wrap(f(*zs), p.split(":")[0], p.split(":")[1] if ":" in p else None))
+            return tuple(out)
         if rk.startswith("opt["):
             inner = rk[4:-1]
             if pure and not inner.startswith("list"):
@@ -593,6 +612,7 @@ class UnitResult:
         self.hook_hits = {}
         self.gen_time = 0.0
         self.executors = []
+        self.seen = set()
 
 
 def explore(unit: Unit, th=None) -> UnitResult:
@@ -610,7 +630,10 @@ def explore(unit: Unit, th=None) -> UnitResult:
         work.extend(ex.pending)
         for ob in ex.obligations:
             ob.detail = ex
-        res.obligations.extend(ex.obligations)
+            if ob.oid in res.seen:
+                continue
+            res.seen.add(ob.oid)
+            res.obligations.append(ob)
         res.outcomes.append(ex.outcome)
         for k, v in ex.hook_hits.items():
             res.hook_hits[k] = res.hook_hits.get(k, 0) + v
